@@ -612,6 +612,11 @@ def curated_vocab(isa):
         f("movq", [{"kind": "mem", "role": "s"}, g("d", **w)])
         f("movq", [g("s", **w), {"kind": "mem", "role": "d"}])
         f("leaq", [{"kind": "mem", "role": "a"}, g("d", **w)])
+        f("addq", [{"kind": "mem", "role": "s"}, g("sd", **w)])
+        f("subq", [{"kind": "mem", "role": "s"}, g("sd", **w)])
+        f("imulq", [{"kind": "mem", "role": "s"}, g("sd", **w)])
+        f("cmpq", [{"kind": "mem", "role": "s"}, g("s", **w)])
+        f("addl", [{"kind": "mem", "role": "s"}, g("sd", w32=True)])
         f("addq", [g("s", **w), {"kind": "mem", "role": "sd"}])
         f("subq", [g("s", **w), {"kind": "mem", "role": "sd"}])
         f("addq", [i, {"kind": "mem", "role": "sd"}])
